@@ -3,10 +3,10 @@
 import glob, json, os
 
 res = {}
-for f in sorted(glob.glob("/tmp/final_*.json") + glob.glob("/tmp/r5final_*.json") + glob.glob("/tmp/r6final_*.json") + glob.glob("/tmp/r7final_*.json") + glob.glob("/tmp/r8final_*.json") + glob.glob("/tmp/refinal_*.json")):
+for f in sorted(glob.glob("/tmp/final_*.json") + glob.glob("/tmp/r5final_*.json") + glob.glob("/tmp/r6final_*.json") + glob.glob("/tmp/r7final_*.json") + glob.glob("/tmp/r8final_*.json") + glob.glob("/tmp/r9final_*.json") + glob.glob("/tmp/refinal_*.json")):
     res.update(json.load(open(f)))
 first = {}
-for f in ("first_round.json", "second_round_first_outcome.json", "third_round_first_outcome.json", "fourth_round_first_outcome.json", "fifth_round_first_outcome.json", "sixth_round_first_outcome.json", "seventh_round_first_outcome.json", "eighth_round_first_outcome.json"):
+for f in ("first_round.json", "second_round_first_outcome.json", "third_round_first_outcome.json", "fourth_round_first_outcome.json", "fifth_round_first_outcome.json", "sixth_round_first_outcome.json", "seventh_round_first_outcome.json", "eighth_round_first_outcome.json", "ninth_round_first_outcome.json"):
     p = os.path.join("/verif/seeded", f)
     if os.path.exists(p):
         first.update(json.load(open(p)))
@@ -16,6 +16,7 @@ raw4.update(json.load(open("/verif/seeded/fifth_round_first_run_raw.json")))
 raw4.update(json.load(open("/verif/seeded/sixth_round_first_run_raw.json")))
 raw4.update(json.load(open("/verif/seeded/seventh_round_first_run_raw.json")))
 raw4.update(json.load(open("/verif/seeded/eighth_round_first_run_raw.json")))
+raw4.update(json.load(open("/verif/seeded/ninth_round_first_run_raw.json")))
 for name in sorted(res):
     r = res[name]
     pid = name.split("_")[0]
@@ -29,7 +30,7 @@ for name in sorted(res):
     caught = {k: v for k, v in r["checks"].items() if v["exit"] == 1}
     meta = {
         "seed": name,
-        "round": (int(name.split("_")[1]) + 1) // 2,
+        "round": 9 if int(name.split("_")[1]) >= 15 else (json.load(open(os.path.join(dst, "meta.json"))).get("round") if os.path.exists(os.path.join(dst, "meta.json")) else (int(name.split("_")[1]) + 1) // 2),
         "breaks_property": pid,
         "needs_to_manifest": notes,
         "confirmed_by": {
